@@ -43,7 +43,7 @@ impl Default for GenCfg {
     }
 }
 
-pub const GENERIC: &[&str] = &["a", "b", "c", "x", "y", "z", "i", "j", "k", "n", "arr", "brr", "owner", "token"];
+pub const GENERIC: &[&str] = &["a", "b", "c", "x", "y", "z", "i", "j", "k", "n", "arr", "brr", "owner", "token", "\u{e9}t\u{e9}", "\u{540d}\u{524d}"];
 
 const ELEM_TYPES: &[&str] = &[
     "uint256", "uint", "address", "bool", "uint8", "bytes32", "int256", "uint128", "int", "uint16",
@@ -196,6 +196,10 @@ const PLANTS: &[(&str, u8, bool)] = &[
     ("require ( a , \"a message that is longer than thirty-two bytes in total\" )", 0, false),
     ("require ( a > b , \"exactly-thirty-two-bytes-long-msg\" )", 0, false),
     ("require ( a , \"thirty-one-bytes-long-message-x\" )", 0, false),
+    ("require ( a , \"ten-bytes!\" \"ten-bytes!\" )", 0, true),
+    ("require ( a , \"sixteen-byte-msg\" \"sixteen-byte-msg\" )", 0, true),
+    ("require ( a , \"a\" 'b' \"c\" )", 0, true),
+    ("require ( a , unicode\"twelve bytes\" \"twelve bytes\" )", 0, true),
     // .length
     ("arr . length", 0, false),
     ("i < arr . length", 10, false),
@@ -259,7 +263,13 @@ impl<'t, 'd> Gen<'t, 'd> {
             0 => {
                 let v = self.version();
                 let op = *self.t.pick(&["", "^", ">=", "=", "~", ">"]);
-                self.w(&format!("pragma solidity {op}{v} ;"));
+                if self.t.chance(24) {
+                    // compound ranges (outside C09's single-version domain; floating_pragma must still see a caret range)
+                    let form = *self.t.pick(&[">=0.8.0 ^0.8.1", "0.8.1 || ^0.7.0", "^0.8", ">=0.6.0 <0.9.0", "^ 0.8.4", ">0.5.0 ^0.5.7 <0.6.0"]);
+                    self.w(&format!("pragma solidity {form} ;"));
+                } else {
+                    self.w(&format!("pragma solidity {op}{v} ;"));
+                }
                 self.nl();
             }
             _ => {
@@ -669,7 +679,7 @@ impl<'t, 'd> Gen<'t, 'd> {
         self.n_fn += 1;
         let name = if self.t.chance(60) {
             // the same function name may well occur in several contracts (and as an overload)
-            self.t.pick(&["kill", "shutdown", "_sweep", "update", "_update", "withdraw"]).to_string()
+            self.t.pick(&["kill", "shutdown", "_sweep", "update", "_update", "withdraw", "\u{e9}mettre", "_\u{e9}mettre"]).to_string()
         } else if self.t.chance(90) {
             format!("_f{}", self.n_fn)
         } else {
@@ -1511,7 +1521,7 @@ impl<'t, 'd> Gen<'t, 'd> {
             34 | 35 => {
                 self.postfix_base(depth);
                 self.w(".");
-                self.wp(&["length", "balance", "transfer", "sender", "m0", "add", "selector", "address", "approve", "value"]);
+                self.wp(&["length", "balance", "transfer", "sender", "m0", "add", "selector", "address", "approve", "value", "r", "s", "a", "From", "transf", "prove", "transferFrom", "len", "e"]);
             }
             36 => {
                 self.w("[");
